@@ -447,7 +447,8 @@ def run(ctx):
     cachecoh.rule(ctx, "C02.stale", ("aspire.samples",), "a weight-derived value (scaled weights, efficiency, ESS) read after compute_weights() still belongs to the previous log-weights")
     # ---- the three densities a weight is computed from are those of the same draw: the initial population is built row-aligned
     reuse(ctx, c10.init_rule, ("C10.init",), "C02init", "pairing rule shared with C10: log_w[i] = L + P - Q needs log_q[i] to be the proposal density of x[i]; a population whose "
-          "coordinates are filtered by the prior mask while log_q is only truncated carries another draw's log_q in row i")
+          "coordinates are filtered by the prior mask while log_q is only truncated carries another draw's log_q in row i",
+          only=lambda f: not f.key.endswith("tested-is-stored"))
     # ---- values returned by a pool-mapped likelihood / prior belong to the rows they were computed for
     reuse(ctx, c10.pool_rule, ("C10.pool",), "C02pool", "pool rule shared with C10: with an unordered map the log-likelihood stored in row i is that of another sample, so log_w[i] is not L + P - Q of sample i")
     # ---- the same functional on SMC populations: the step's evidence ratio is the log of the mean incremental weight
